@@ -890,6 +890,7 @@ func (g *FuncGen) execFor(x *ast.ForStmt, st *State) Flow {
 	for _, k := range fkeys {
 		g.oblige(st, fmt.Sprintf("frame-entry/loop%d", ord), k, nil, g.frameFormula(st, k), x.Pos(), k+" unchanged on objects existing at entry")
 	}
+	g.ioLoopEntry(st, ord, x.Pos())
 	head := st.clone()
 	g.havoc(head, ws, "loop")
 	for _, k := range fkeys {
@@ -990,6 +991,7 @@ func (g *FuncGen) execRange(x *ast.RangeStmt, st *State) Flow {
 	for _, fk := range fkeys {
 		g.oblige(st, fmt.Sprintf("frame-entry/loop%d", ord), fk, nil, g.frameFormula(st, fk), x.Pos(), fk+" unchanged on objects existing at entry")
 	}
+	g.ioLoopEntry(st, ord, x.Pos())
 	head := st.clone()
 	g.havoc(head, ws, "range")
 	for _, fk := range fkeys {
@@ -1268,6 +1270,20 @@ func (g *FuncGen) ioLoopAssume(head *State) {
 		return
 	}
 	g.assume(head, fmt.Sprintf("(=> %s %s)", g.ghostGet(head, "$iofail"), e))
+}
+
+// ioLoopEntry: the assumption ioLoopAssume makes at the loop head has to hold when the loop is first reached as well:
+// no failure is pending there either (a failed write before a loop must have left the function already).
+func (g *FuncGen) ioLoopEntry(st *State, ord int, pos token.Pos) {
+	if len(g.inlineStack) > 0 || !ioReporting(g.F) || g.entry == nil || st == nil {
+		return
+	}
+	e, ok := g.entry.heap["$iofail"]
+	if !ok {
+		return
+	}
+	g.oblige(st, fmt.Sprintf("iofail-keep/loop%d", ord), "entry", nil, fmt.Sprintf("(=> %s %s)", g.ghostGet(st, "$iofail"), e), pos,
+		"no failed file-system operation is pending when the loop is reached")
 }
 
 func (g *FuncGen) ioLoopKeep(back *State, ord int, pos token.Pos) {
